@@ -1770,13 +1770,43 @@ def C04(tier, seed):
               f"TLC); observation immediately after each call; judged by MonC04.tla in {res['wall_s']}s; "
               f"{len(res['bads'])} predicate failures; counters {res['counts']}")
         viols, known = C.triage(pid, res["bads"], res["traces"], res["scen_files"])
+        # flush() under concurrency: 2-8 threads keep logging while the application thread calls flush() again and again and
+        # reads the file each time it has returned (recorded event lists of free-running executions, no rotation)
+        cscens = []
+        for i in range(24 if tier == "quick" else 240):
+            mode = ["buf", "bufflush", "direct", "buf"][i % 4]
+            c = {"mode": mode, "naming": "Num", "rot": False, "crlf": False, "bg": False}
+            if mode != "direct":
+                c["cap"] = rng.choice([64, 256, 8192])
+            if mode == "bufflush":
+                c["flush_ms"] = rng.choice([1, 1000])
+            cscens.append({"sc": len(cscens) + 1, "kind": "stress", "out": "file", "cfg": c, "threads": rng.choice([2, 4, 8]),
+                           "per": rng.choice([100, 300]) if tier == "quick" else rng.choice([300, 1000]), "rawmix": False,
+                           "failfmt": False, "trace": True, "appflush": True, "lens": [9, 12, 33, 64, 100],
+                           "noise": rng.randrange(1, 2 ** 31), "origin": "stress:appflush"})
+        resc = C.run_sharded(pid, "MonC04c", cscens, wd, sub="conc", nshards=6)
+        cfc = C.conform_conc(resc["traces"], wd)
+        C.log(f"[C04] flush() while {2}-{8} threads log: {resc['scenarios']} free-running executions / {resc['events']} recorded events; "
+              f"judged by MonC04c.tla (every record whose call had returned before flush() was called is in the file when flush() "
+              f"has returned): {len(resc['bads'])} predicate failures; counters {resc['counts']}; conform mode (TraceFlwConc.tla): "
+              + ("all accepted" if not cfc["drifts"] else f"{len(cfc['drifts'])} not accepted"))
+        for (dsc, dn, dev) in cfc["drifts"][:10]:
+            C.log(f"NOTE conformance-drift: scenario {dsc} event {dn} ({dev}) is not a step of FlwConc.tla (no property verdict)")
+        v2, k2 = C.triage(pid, resc["bads"], resc["traces"], resc["scen_files"], executor="conc", monitor="MonC04c")
+        viols += v2
+        known += k2
         for fnd, cnt in known:
             C.log(f"KNOWN-FINDING: property={pid} {fnd['id']}: {fnd['what']} ({cnt} occurrences)")
         for v in viols[:10]:
             C.log(f"VIOLATION property={pid} replay={v['replay']}")
             C.log(f"   predicate {v['pred']} failed at scenario {v['sc']} event {v['n']}; facts {v['facts']}")
-        cov = {"states": states, "transitions": transitions, "traces_validated_against_impl": res["scenarios"],
-               "events_judged": res["events"], "evaluations": res["scenarios"],
+        cov = {"states": states, "transitions": transitions, "traces_validated_against_impl": res["scenarios"] + resc["scenarios"],
+               "events_judged": res["events"] + resc["events"], "evaluations": res["scenarios"] + resc["scenarios"],
+               "concurrent_flush": {"monitor": "MonC04c.tla", "executions": resc["scenarios"], "events": resc["events"],
+                                    "counters": resc["counts"], "predicate_failures": len(resc["bads"]),
+                                    "conform_mode": {"spec": "TraceFlwConc.tla", "traces_checked": cfc["scenarios"],
+                                                     "events_checked": cfc["events"],
+                                                     "accepted": cfc["scenarios"] - len({d[0] for d in cfc["drifts"]})}},
                "distinct_nontrivial": len({json.dumps([s["cfg"], s["steps"]], sort_keys=True) for s in scens}),
                "rule": "all application-level histories (log x3, flush, clone, drop-clone, shutdown, then drop of the last "
                        "handle with/without explicit shutdown) of the FlwConc model per mode, executed with direct / capture / "
